@@ -41,8 +41,9 @@ type H5Cfg struct {
 	Weights       []float64 `json:"weights,omitempty"`
 	Rates         []int     `json:"rates,omitempty"` // scripted underlying rate per evaluation (cyclic)
 	RandBeyond    bool      `json:"rand_beyond,omitempty"`
-	BodyNs        []int64   `json:"body_ns,omitempty"` // duration of the k-th started iteration (cyclic); empty = instantaneous
-	Direct        bool      `json:"direct,omitempty"`  // evaluate with a plain ticker loop instead of the real pool (large rates)
+	PureTicks     int64     `json:"pure_ticks,omitempty"` // dist kind: evaluate this many consecutive sub-ticks back to back
+	BodyNs        []int64   `json:"body_ns,omitempty"`    // duration of the k-th started iteration (cyclic); empty = instantaneous
+	Direct        bool      `json:"direct,omitempty"`     // evaluate with a plain ticker loop instead of the real pool (large rates)
 }
 
 type h5Call struct {
@@ -65,6 +66,10 @@ type h5Shared struct {
 	buildErr    string
 	finished    bool
 	stagedT0    int64
+	innerCount  int
+	lastInner   int
+	pureCycles  int64
+	pureViol    string
 }
 
 // beginBody counts a started iteration and returns its planned duration (atomic: no scheduling points here).
@@ -75,6 +80,48 @@ func (sh *h5Shared) beginBody(c *H5Cfg) int64 {
 		return 0
 	}
 	return c.BodyNs[int(k)%len(c.BodyNs)]
+}
+
+// h5PureLoop evaluates c.PureTicks consecutive sub-ticks and checks every cycle on the fly (C12), keeping
+// only counters: the call logs of ten million evaluations would not fit.
+func h5PureLoop(env *Env, c *H5Cfg, sh *h5Shared, rate func(time.Time) int) {
+	n := int(c.FreqMs / 100)
+	t := simrt.Epoch.Add(time.Duration(env.Sim.Now()))
+	var cycSum, cycMin, cycMax, pos int
+	cycMin = 1 << 62
+	innerAtCycleStart := 0
+	for i := int64(0); i < c.PureTicks; i++ {
+		if pos == 0 {
+			innerAtCycleStart = sh.innerCount
+		}
+		v := rate(t)
+		t = t.Add(100 * time.Millisecond)
+		if v < 0 {
+			sh.pureViol = fmt.Sprintf("sub-tick %d: value %d", i, v)
+			return
+		}
+		cycSum += v
+		cycMin, cycMax = min(cycMin, v), max(cycMax, v)
+		pos++
+		if pos == n {
+			cyc := i / int64(n)
+			if sh.innerCount != innerAtCycleStart+1 {
+				sh.pureViol = fmt.Sprintf("cycle %d: the underlying rate was evaluated %d times", cyc, sh.innerCount-innerAtCycleStart)
+				return
+			}
+			if cycSum != sh.lastInner {
+				sh.pureViol = fmt.Sprintf("cycle %d of %d sub-ticks: values sum to %d, the underlying rate produced %d", cyc, n, cycSum, sh.lastInner)
+				return
+			}
+			if c.Dist == "regular" && cycMax-cycMin > 1 {
+				sh.pureViol = fmt.Sprintf("cycle %d: regular distribution of %d ranges from %d to %d", cyc, sh.lastInner, cycMin, cycMax)
+				return
+			}
+			sh.pureCycles++
+			cycSum, cycMax, pos = 0, 0, 0
+			cycMin = 1 << 62
+		}
+	}
 }
 
 func (sh *h5Shared) logOuter(env *Env, t time.Time, v int) {
@@ -101,6 +148,14 @@ func weightsString(ws []float64) string {
 func h5Build(env *Env, c *H5Cfg, sh *h5Shared) (*api.Rates, error) {
 	scripted := func(t time.Time) int {
 		v := 0
+		if c.PureTicks > 0 {
+			if len(c.Rates) > 0 {
+				v = c.Rates[sh.innerCount%len(c.Rates)]
+			}
+			sh.innerCount++
+			sh.lastInner = v
+			return v
+		}
 		if len(c.Rates) > 0 {
 			v = c.Rates[len(sh.inner)%len(c.Rates)]
 		}
@@ -200,6 +255,18 @@ func (h5) Gen(prop, tier string, r *simrt.Rng) (any, simrt.Config) {
 		if c.RunNs/(c.FreqMs*ms) > int64(maxTicks) {
 			c.FreqMs = (c.RunNs/ms/int64(maxTicks)/10 + 1) * 10
 		}
+		if r.Intn(6) == 0 {
+			// long horizon: stages of minutes to hours, evaluated once a minute
+			c.FreqMs, c.Stages, total = 60000, nil, 0
+			for i, n := 0, 1+r.Intn(4); i < n; i++ {
+				d := int64(simrt.Pick(r, 1, 10, 45, 90, 180, 300)) * 60000
+				total += d
+				c.Stages = append(c.Stages, H5Stage{DurMs: d, Target: r.Intn(2001)})
+			}
+			c.ExplicitStart = false
+			c.RunNs = (total+int64(r.Intn(5))*60000)*ms + odd(r)
+			c.Direct = true
+		}
 	case "ramp":
 		c.RampUnitMs = simrt.Pick(r, int64(10), 50, 100, 100, 1000)
 		c.RampFrom, c.RampTo = r.Intn(201), r.Intn(201)
@@ -211,6 +278,17 @@ func (h5) Gen(prop, tier string, r *simrt.Rng) (any, simrt.Config) {
 			c.RampDurMs += int64(r.Intn(int(c.RampUnitMs)))
 		}
 		c.RunNs = (c.RampDurMs+int64(r.Intn(5))*c.RampUnitMs)*ms + odd(r)
+		if r.Intn(6) == 0 {
+			// long horizon: a ramp over hours, evaluated once a minute
+			c.RampUnitMs = 60000
+			c.RampFrom, c.RampTo = r.Intn(2001), r.Intn(2001)
+			if c.RampFrom == c.RampTo {
+				c.RampTo++
+			}
+			c.RampDurMs = 60000 * int64(simrt.Pick(r, 30, 120, 180, 400, 600))
+			c.RunNs = (c.RampDurMs+int64(r.Intn(5))*60000)*ms + odd(r)
+			c.Direct = true
+		}
 	case "gaussian":
 		c.FreqMs = simrt.Pick(r, int64(100), 200, 500, 1000, 1000, 5000, 60000)
 		steps := int64(simrt.Pick(r, 100, 120, 200, 360, 600))
@@ -257,6 +335,21 @@ func (h5) Gen(prop, tier string, r *simrt.Rng) (any, simrt.Config) {
 			if c.RunNs > int64(maxTicks)*c.FreqMs*ms {
 				c.RunNs = int64(maxTicks)*c.FreqMs*ms + odd(r)
 			}
+		}
+		longP := 2500
+		if thorough {
+			longP = 150
+		}
+		if c.Dist != "none" && c.FreqMs > 100 && r.Intn(longP) == 0 {
+			// long horizon: tens of millions of consecutive sub-ticks with shares that are not on any float grid
+			c.FreqMs = simrt.Pick(r, int64(300), 600, 700, 900, 60000)
+			c.Rates = []int{simrt.Pick(r, 1, 2, 7, 100, 1000)}
+			if r.Intn(2) == 0 {
+				c.Rates = append(c.Rates, simrt.Pick(r, 1, 5, 11))
+			}
+			c.Dist = "regular" // the random distribution would record one choice per draw
+			c.PureTicks = int64(simrt.Pick(r, 12, 20, 33)) * 1000000
+			c.RunNs = int64(time.Second)
 		}
 	case "jitter":
 		c.Jitter = simrt.Pick(r, 0.0, 1, 5, 10, 25, 50, 75, 90, 99, 99.9)
@@ -345,6 +438,14 @@ func (h h5) Run(env *Env, cfg any) {
 		return
 	}
 	env.Cover = map[string]uint64{}
+	if c.PureTicks > 0 {
+		if sh.pureViol != "" {
+			env.Violate("C12", "cycle-sum", "dist/"+c.Dist+"/long-horizon", "%s (after %d clean cycles; %s)", sh.pureViol, sh.pureCycles, h.Describe(c))
+		}
+		env.Cover["h5.dist_cycles"] = uint64(sh.pureCycles)
+		env.Cover["h5.long_horizon_subticks"] = uint64(c.PureTicks)
+		return
+	}
 	h5Cadence(env, c, sh, stats)
 	switch c.Kind {
 	case "staged", "ramp":
